@@ -73,7 +73,7 @@ class _Inline(ast.NodeTransformer):
         env = bind_args(target, node)
         if env is None:
             return node
-        ps = [p for p in paths(target.node) if p.ret is not RAISE]
+        ps = [p for p in paths(target.node, track_stores=True) if p.ret is not RAISE]
         if not ps or any(p.ret is None for p in ps) or len(ps) > 8:
             return node
         if len(ps) == 1:
